@@ -262,32 +262,40 @@ def check_writer(ctx, rr, fi, cfg, open_node, open_call):
             rr.ok("R1c %s: every normal exit passes through the rename" % q)
 
 
-def run(ctx):
+def crop_slice(ctx):
     prog = ctx.prog
     entries = [prog.need_func(q) for q in ENTRY_WRITERS]
     sl = ctx.res.slice(entries)
     m = prog.modules["xyzpy.gen.cropping"]
-    crop_funcs = [f for f in sl if f.module is m]
+    return [f for f in sl if f.module is m]
+
+
+def publication_rule(ctx, rid, title="atomic publication with a private same-directory temporary", floor=8):
+    """R1 as a reusable rule: -> (rule result, writers, writer qualnames)."""
+    prog = ctx.prog
+    crop_funcs = crop_slice(ctx)
     for f in crop_funcs:
         ctx.touch(f, build_cfg(f.node))
-
-    # ---- R1
-    r1 = ctx.rule("C11.R1", "atomic publication with a private same-directory temporary", floor=8)
+    r1 = ctx.rule(rid, title, floor=floor)
     writers = find_writers(ctx, crop_funcs)
     need(len(writers) >= 1, "anchor lost: no function reachable from sow_*/grow opens a file for writing")
     wf = {w[0].qualname for w in writers}
-    if len(wf) != 1:
-        for fi, cfg, n, c in writers:
-            r1.note("writer: %s" % fi.qualname)
     for fi, cfg, n, c in writers:
         check_writer(ctx, r1, fi, cfg, n, c)
-    # every crop file written on those paths goes through a writer function
     callers = []
     for wq in wf:
         callers += ctx.res.callers_of(prog.func(wq))
     ctx.extra["writer_functions"] = sorted(wf)
     ctx.extra["writer_call_sites"] = len(callers)
     need(len(callers) >= 4, "anchor lost: expected >= 4 call sites of the single writer, found %d" % len(callers))
+    return r1, writers, wf
+
+
+def run(ctx):
+    prog = ctx.prog
+    m = prog.modules["xyzpy.gen.cropping"]
+    crop_funcs = crop_slice(ctx)
+    r1, writers, wf = publication_rule(ctx, "C11.R1")
 
     # ---- R2 who may write
     r2 = ctx.rule("C11.R2", "single writer: no other raw write into the crop directory", floor=2)
@@ -383,6 +391,12 @@ def run(ctx):
     for fi in asl:
         ctx.touch(fi)
         bad = [(n, c, nm) for n, c, nm in all_calls(ctx, fi) if nm in REMOVERS]
+        if fi.qualname in wf:
+            # a writer may clean up its *own* temporary (never a parameter,
+            # i.e. never a final name)
+            own_tmp = {norm(arg(oc, 0, "file")) for (wfi, _, _, oc) in writers if wfi is fi and isinstance(arg(oc, 0, "file"), ast.Name)
+                       and arg(oc, 0, "file").id not in fi.params}
+            bad = [(n, c, nm) for n, c, nm in bad if not (c.args and norm(c.args[0]) in own_tmp and nm in ("os.remove", "os.unlink"))]
         for n, c, nm in bad:
             r4.bad(ctx.finding(r4.rule, fi, c, "%s removes a file while growers / a waiting reaper may be using the crop: a published result can disappear between the reaper's existence poll and its load (a batch grown twice must only ever *replace* its result)" % norm(c)[:80]),
                    "%s: %s" % (fi.qualname, norm(c)[:60]))
